@@ -5,6 +5,9 @@
 # usage: tools/mustfail.sh [Cxx ...]     (default: all properties that have a corpus)
 cd "$(dirname "$0")/.."
 props="$*"
+# build the engine once, then forbid rebuilds during the run (an engine edit in progress must not break it)
+./check -h >/dev/null 2>&1 || true
+export VERIF_NO_REBUILD=1
 [ -z "$props" ] && props=$(ls mutants seeded benign 2>/dev/null | grep -o '^C[0-9][0-9]' | sort -u)
 bad=0; n=0
 for p in $props; do
